@@ -1500,6 +1500,9 @@ func (cpu *CPU) op_jmp() {
 	case m_Absolute_Indirect_Long:
 		cpu.PC = cpu.Bus.nRead16_wrap(0x00, cpu.StepInfo.Addr)
 		cpu.RK = cpu.Bus.nRead(0x00, cpu.StepInfo.Addr+2)
+	case m_Absolute_X_Indirect:
+		// Addr already holds the pointer fetched from K:(abs+X) with wrap inside the bank
+		cpu.PC = cpu.StepInfo.Addr
 	default:
 		cpu.PC = cpu.cmdRead16()
 	}
@@ -1519,7 +1522,8 @@ func (cpu *CPU) op_jsl() {
 func (cpu *CPU) op_jsr() {
 	cpu.push16(cpu.PC + 2)
 	switch cpu.StepInfo.Mode {
-	case m_Absolute:
+	case m_Absolute, m_Absolute_X_Indirect:
+		// for (abs,X) Addr already holds the pointer fetched from K:(abs+X) with wrap inside the bank
 		cpu.PC = cpu.StepInfo.Addr
 	default:
 		cpu.PC = cpu.cmdRead16()
